@@ -187,7 +187,7 @@ def classify(r, vr):
     r.verdict = 'pass'
 
 
-def playback_values(crate, tdir, harness, flags=(), timeout=900):
+def playback_values(crate, tdir, harness, flags=(), timeout=600):
     """Re-run one failing harness with concrete playback and return the ordered byte vectors."""
     cmd = ['cargo', 'kani', '--target-dir', tdir, '--harness', harness, '--exact',
            '-Z', 'unstable-options', '-Z', 'concrete-playback', '--concrete-playback=print'] + [f for f in flags]
